@@ -123,7 +123,7 @@ def hist(prop, tt, nops, newmode=2, extra=(), timeout=1500, u=None, tag=""):
              timeout=timeout)
 
 
-def thorough_h4(prop, extra=(), newmode=None, types=(0, 1, 2), skip_two_child=False):
+def thorough_h4(prop, extra=(), newmode=None, types=(0, 1, 2), skip_two_child=False, replace_extra=()):
     """H=4 (<= 15 nodes before the step): every insert position, replace and removal neighbourhood for the given types.
     RB/AVL removals of a stored key cost 30-220 s and 0.8-2 GB each (fix-up loop bounds are tight per case)."""
     h, qs = 4, []
@@ -132,7 +132,7 @@ def thorough_h4(prop, extra=(), newmode=None, types=(0, 1, 2), skip_two_child=Fa
             qs.append(step(prop, tt, h, 0, p, 0, newmode=p % 2 if newmode is None else newmode, extra=extra, timeout=1800))
             qs.append(step(prop, tt, h, 0, p, 0, newmode=(p + 1) % 2 if newmode is None else newmode, extra=list(extra) + ["ALLOC_FAIL"], timeout=1800))
         for p in hit_cases(h):
-            qs.append(step(prop, tt, h, 0, p, 1, newmode=(p + 1) % 2 if newmode is None else newmode, extra=extra, timeout=1800))
+            qs.append(step(prop, tt, h, 0, p, 1, newmode=(p + 1) % 2 if newmode is None else newmode, extra=list(extra) + list(replace_extra), timeout=1800))
             for rc in remcases(h, p):
                 if skip_two_child and two_child(rc):
                     continue
